@@ -41,7 +41,7 @@ pub fn shards(tier: &str) -> Vec<String> {
             if s == "s11" && k == "zbdd" {
                 continue;
             }
-            let bound = if tier == "thorough" && matches!(s, "s1" | "s2" | "s3" | "s8" | "s10") { 3 } else { 2 };
+            let bound = if tier == "thorough" && matches!(s, "s1" | "s2" | "s3" | "s8" | "s10" | "s16") { 3 } else { 2 };
             v.push(format!("{k}:{s}:b{bound}"));
         }
     }
